@@ -236,6 +236,7 @@ class Shadow:
         self.inq2 = set()
         self.subs = []
         self.hosted = False
+        self.pending = []
 
 
 def gen_case(rng, tier, weights=None, maxlen=None):
@@ -305,7 +306,16 @@ def _publish(rng, sh, qos=None):
 
 
 def _next_op(rng, sh):
+    if sh.pending:
+        return sh.pending.pop(0)
     r = rng.random()
+    if sh.sock and sh.cfg["ka"] > 0 and rng.random() < 0.06:
+        # keep-alive pattern: idle for exactly K (PINGREQ due), then K again (timeout due) with loop_misc in between
+        k = sh.cfg["ka"] * 1000
+        d = rng.choice([0, 0, 500, k // 2])
+        sh.pending = ["loop_misc", f"tick {k - d if rng.random() < 0.3 else k}", "loop_misc"] + (["rx pingresp"] if rng.random() < 0.4 else []) + \
+                     [f"tick {k}", "loop_misc", "loop_misc"]
+        return f"tick {k + d}"
     if not sh.sock:
         if r < 0.45:
             ok = rng.random() < 0.85
@@ -387,7 +397,7 @@ def _next_op(rng, sh):
         sh.connected = False
         return rng.choice(["rx eof", "rx err"])
     if r < 0.80:
-        return f"tick {rng.choice([100, 1000, 5000, 10000, 30000, 60000])}"
+        return f"tick {rng.choice([500, 1000, 5000, 10000, 30000, 60000])}"
     if r < 0.84:
         return "loop_misc"
     if r < 0.86:
